@@ -95,7 +95,7 @@ def runScriptE (env : Env) (ops : List POp) (s : St) : Ended × Ev :=
   | (.failed e, ev) => (.stop (.reject e), ev)
   | (.panicked p, ev) => (.stop (.panic p), ev)
   | (.returned s', ev) =>
-    (.byReturn { s' with numOps := 0, early := false, lastCodeSep := 0, sepSeen := false }, ev ++ ['c', 'C'])
+    (.byReturn { s' with as := [], numOps := 0, early := false, lastCodeSep := 0, sepSeen := false }, ev ++ ['c', 'C'])
   | (.finished s', ev) =>
     if !s'.cond.isEmpty then (.stop (.reject "ErrUnbalancedConditional"), ev)
     else (.normal { s' with as := [], numOps := 0, early := false, lastCodeSep := 0, sepSeen := false }, ev ++ ['c', 'C'])
@@ -150,7 +150,7 @@ def executeE (H : Crypto) (flags : Nat) (ctx : Option Ctx) (unlock lock : Bytes)
       | (.stop v, ev) => stopE v ('[' :: ev)
       | (.byReturn s1, ev) =>
         (match p.lock with
-         | [] => stopE (.reject "ErrInvalidProgramCounter") ('[' :: ev ++ ['S', 's'])
+         | [] => finalE env s1 ('[' :: ev)
          | _ => runLockE env p ctx.isNone s1.ds s1 ('[' :: ev ++ ['S']))
       | (.normal s1, ev) =>
         match p.lock with
